@@ -36,6 +36,8 @@ def fmt_op(o):
             return f"fn {o['fn']}"
         if "promoted" in o:
             return f"promoted[{o['promoted']}]"
+        if "static" in o:
+            return f"static {o['static']}"
         if "v" in o:
             import json
             d = f" ({o['def']})" if "def" in o else ""
